@@ -13,7 +13,7 @@ from sa.report import Ctx
 from .common import generic_sweeps
 from sa.stutter import stutter_paths
 
-from .sat_common import SatRoles, check_add_sites, check_binary_add, check_binary_clear, check_assumption_assertion, check_analysis, check_assign, check_backtrack, check_bcp, check_main_loop, check_heap_flags, check_variable_universe, check_input_copy
+from .sat_common import SatRoles, check_add_sites, check_binary_add, check_binary_clear, check_assumption_assertion, check_analysis, check_assign, check_backtrack, check_bcp, check_main_loop, check_heap_flags, check_variable_ranges, check_variable_universe, check_input_copy
 
 EXPLANATION = (
     "Decides structural necessary conditions of 'INFEASIBLE only without a model / always returns within budgets' on "
@@ -44,6 +44,7 @@ def run(ctx: Ctx):
     ctx.step(check_assumption_assertion, roles, "C02-O7")
     ctx.assume("conflict-only cycles terminate because consecutive conflicts strictly lower the decision level (not verified)")
     ctx.step(check_heap_flags, "C02-O8")
+    ctx.step(check_variable_ranges, "C02-O8")
     ctx.step(check_variable_universe, "C02-O10")
     ctx.step(check_assign, "C02-O11")
     ctx.step(check_bcp, "C02-O12")
@@ -549,7 +550,13 @@ def _v_long_learned_clause_dropped(tree):
     M.insert(f, "clause_idx = len(clauses) + len(learned)", "if len(learned_clause) > 8:\n    assign(lit_var(learned_clause[0]), learned_clause[0] > 0, -1)\n    conflicts_since_restart += 1\n    conflict = propagate()\n    continue")
 
 
+def _v_assumptions_only_when_pending(tree):
+    g = M.find_func(tree, "solve_sat.propagate")
+    M.replace_expr(g, lambda e: M.src_is(e, "len(trail_lim) == 0"), M.expr("len(trail_lim) == 0 and prop_head < len(trail)"), count=1)
+
+
 VARIANTS = [
+    M.Variant("propagate asserts the assumptions at level 0 only when something is pending on the trail (seed C02-X)", "solvor/sat.py", _v_assumptions_only_when_pending, "C02-O12"),
     M.Variant("a long learned clause is not stored, its first literal is asserted without reason on the backjump level (seed C02-R)", SAT, _v_long_learned_clause_dropped, "C02-O5"),
     M.Variant("literals are removed from the learned clause after resolution (seed C02-O)", SAT, _v_learned_clause_minimised, "C02-O13"),
 
